@@ -1,17 +1,22 @@
 #!/bin/bash
-# Apply every seeded change to /repo in turn, run the quick check of the property it breaks,
-# undo it. Prints one line per change: caught (rc=1) / MISSED (rc=0) / other.
+# Apply every seeded change to /repo in turn, run the quick checks recorded as catching it
+# (seeded/<id>/meta.json: caught_by_quick_checks), undo it. One line per change.
 cd /verif
 for d in seeded/*/; do
   id=$(basename $d)
-  prop=${id%%-*}
+  [ -f $d/patch.diff ] || continue
+  checks=$(python3 -c "import json;print(' '.join(json.load(open('$d/meta.json'))['caught_by_quick_checks']))")
   cd /repo && git apply /verif/$d/patch.diff 2>/dev/null || { echo "$id: patch does not apply"; cd /verif; continue; }
   cd /verif
-  out=$(VERIF_SEED=${VERIF_SEED:-1} timeout 1800 ./check $prop --tier quick 2>&1); rc=$?
-  sig=$(echo "$out" | grep -m1 "signature:" | sed 's/ *signature: //' | cut -c1-90)
-  case $rc in 1) v=caught;; 0) v=MISSED;; *) v="rc=$rc";; esac
-  echo "$id: $v  $sig"
-  rm -f replays/$prop/found-*
+  res=""
+  for c in $checks; do
+    out=$(VERIF_SEED=${VERIF_SEED:-1} timeout 1800 ./check $c --tier quick 2>&1); rc=$?
+    sig=$(echo "$out" | grep -m1 "signature:" | sed 's/ *signature: //' | cut -c1-70)
+    case $rc in 1) v=caught;; 0) v=MISSED;; *) v="rc=$rc";; esac
+    res="$res $c:$v($sig)"
+    rm -f replays/$c/found-*
+  done
+  echo "$id:$res"
   cd /repo && git checkout -- . ; cd /verif
 done
 ./check --setup
